@@ -356,7 +356,7 @@ pub fn run_check(spec: &CheckSpec, tier: Tier) -> i32 {
 }
 
 /// Classify the violations of a batch. Returns (exit code, known findings hit, number of new violations).
-pub fn report(spec: &CheckSpec, _tier: Tier, seed: u64, res: &BatchResult) -> (i32, Vec<String>, usize) {
+pub fn report(spec: &CheckSpec, tier: Tier, seed: u64, res: &BatchResult) -> (i32, Vec<String>, usize) {
     let findings = load_findings();
     let mut known_hit: Vec<String> = vec![];
     let mut fresh: Vec<&(u64, Violation)> = vec![];
@@ -376,7 +376,8 @@ pub fn report(spec: &CheckSpec, _tier: Tier, seed: u64, res: &BatchResult) -> (i
     if let Some((idx, v)) = fresh.first().map(|x| (x.0, x.1.clone())) {
         // minimise and write the replay file
         let rs = run_seed(seed, spec.id, idx);
-        let scn = (spec.generate)(spec.id, rs, Tier::Quick, idx);
+        // (the same tier as the batch: generators may depend on it)
+        let scn = (spec.generate)(spec.id, rs, tier, idx);
         let dir = format!("{}/shrink", scratch_root());
         let _ = std::fs::create_dir_all(&dir);
         let original_len = scn.len();
